@@ -171,7 +171,8 @@ class _RedisConsumer(ConsumerT):
                 return None
 
             # check if any of the new message names is meeting `startswith_topics` condition
-            for name in names:
+            # (a list is read from its consuming end: the oldest name is the last one of the range)
+            for name in names if delayed else reversed(names):
                 str_name = name.decode()
                 if not startswith_topics or str_name.startswith(startswith_topics):
                     return str_name
